@@ -594,16 +594,6 @@ def check_driver(prog, rep, kern, line, cs):
             rows.append(None)
         else:
             rows.append(c[4][0])
-    dirs = []
-    for L in rows:
-        if L is None:
-            dirs.append('?')
-        elif rng(L) == (Rat.const(0), H, Rat.const(1)):
-            dirs.append('asc')
-        elif rng(L) == (H - Rat.const(1), Rat.const(-1), Rat.const(-1)):
-            dirs.append('desc')
-        else:
-            dirs.append(repr(L))
     P = line.params
     pos = {p: i for i, p in enumerate(P)}
     roles = line_roles(prog, line, interpret(prog, line, strict=False))
@@ -615,6 +605,19 @@ def check_driver(prog, rep, kern, line, cs):
             return kws[p]
         return c[1][pos[p]] if pos[p] < len(c[1]) else None
     fws = [arg(c, fwd) for i, c in calls_]
+    # the row each sweep works on (its line id argument) and the order in which a pass visits the rows, evaluated on 5 rows
+    rowline = [arg(c, lid) for i, c in calls_]
+    dirs = []
+    for L, rl in zip(rows, rowline):
+        if L is None or rng(L) is None or not isinstance(rl, Rat):
+            dirs.append('?')
+            continue
+        try:
+            seq = [int(x) for x in sweep_order(L, rl, {next(iter(H.atoms())): Fraction(5)})]
+        except (CannotEvaluate, TypeError, ValueError):
+            dirs.append(repr(L))
+            continue
+        dirs.append('asc' if seq == [0, 1, 2, 3, 4] else 'desc' if seq == [4, 3, 2, 1, 0] else repr(seq))
     passes = []
     for L in rows:
         if L is not None and not any(L is p for p in passes):
@@ -635,7 +638,8 @@ def check_driver(prog, rep, kern, line, cs):
         return repr(a) == repr(b)
     c0 = calls_[0][1]
     shared = all(same(arg(c, p), arg(c0, p)) for i, c in calls_ for p in roles if p not in (fwd, lid))
-    lines_ok = all(arg(c, lid) == Rat.sym(r.var) for (i, c), r in zip(calls_, rows)) and all(arg(c, width) == W for i, c in calls_)
+    lines_ok = all(isinstance(rl, Rat) and all(rl == rl2 for rl2, r2 in zip(rowline, rows) if r2 is r) for rl, r in zip(rowline, rows)) and \
+        all(arg(c, width) == W for i, c in calls_)
     rep.add('X3', kern, entry, 'the four calls pass the same arrays, the row being swept and the raster width', kern.node.lineno,
             shared and lines_ok, 'all four sweeps must work on the same line buffer, coordinate grids, memories and result arrays, '
             'with line_id = the row loop variable and width = number of columns')
@@ -720,7 +724,7 @@ def check_driver(prog, rep, kern, line, cs):
     for pi, p in enumerate(passes):
         i = first_of[id(p)]
         s = state_before(i, A[src], [p])
-        rowv = Rat.sym(p.var)
+        rowv = next(rl for rl, r_ in zip(rowline, rows) if r_ is p)
         okl = False
         if s is not None and s[0] == 'each' and _in_loop(ev[s[2]], p):
             v = s[1]
@@ -755,7 +759,7 @@ def check_driver(prog, rep, kern, line, cs):
     ok3 = False
     if len(imgd) == 1 and s2 is not None and s2[0] in ('each', 'fill') and _in_loop(ev[s2[2]], p2) and isinstance(s2[1], Rat):
         D = next(iter(imgd))
-        rowv = Rat.sym(p2.var)
+        rowv = next(rl for rl, r_ in zip(rowline, rows) if r_ is p2)
         at = _one(s2[1])
         if s2[0] == 'each' and at is not None and at.name in ('read', 'cell?') and at.args[0] == D and tuple(at.args[1:3]) == (rowv, Rat.sym(s2[3].var)):
             ok3 = True
@@ -781,7 +785,7 @@ def check_driver(prog, rep, kern, line, cs):
         r = rows[n]
         for st in seg:
             total += 1
-            if len(st.idx) != 2 or st.idx[0] != Rat.sym(r.var) or not st.loops or st.idx[1] != Rat.sym(st.loops[-1].var) or \
+            if len(st.idx) != 2 or st.idx[0] != rowline[n] or not st.loops or st.idx[1] != Rat.sym(st.loops[-1].var) or \
                     rng(st.loops[-1]) != (Rat.const(0), W, Rat.const(1)):
                 continue
             iv = st.idx[1]
@@ -814,7 +818,7 @@ def check_driver(prog, rep, kern, line, cs):
                 if rec[3] == v and len(rec[1]) == 4 and rec[0].name == '_calc_direction':
                     a1, a2, a3, a4 = rec[1]
                     xa, ya = _param_name(xg), _param_name(yg)
-                    okd = a1 == Rat.atom(App('read', [xa, Rat.sym(r.var), iv])) and a3 == Rat.atom(App('read', [ya, Rat.sym(r.var), iv])) and \
+                    okd = a1 == Rat.atom(App('read', [xa, rowline[n], iv])) and a3 == Rat.atom(App('read', [ya, rowline[n], iv])) and \
                         _near_read(a2, xa, A[nys].name, A[nxs].name, iv) and _near_read(a4, ya, A[nys].name, A[nxs].name, iv)
                     if okd:
                         ndi += 1
